@@ -201,6 +201,30 @@ pub fn stub_str_repeat_len_only(s: &str, n: usize) -> String {
     unsafe { String::from_raw_parts(BACKING.as_ptr() as *mut u8, len, len) }
 }
 
+/// Model of `str::repeat` with the real contents for results of at most 64 bytes (asserted): the
+/// bytes are appended one by one into a fixed-capacity buffer, so a *symbolic* count needs no
+/// allocation of a symbolic size (CBMC aborts on that inside `slice::repeat`).
+pub fn stub_str_repeat_bounded(s: &str, n: usize) -> String {
+    let total = s.len().checked_mul(n).expect("capacity overflow");
+    assert!(total <= 64, "stub_str_repeat_bounded: result longer than 64 bytes");
+    let mut v: Vec<u8> = Vec::with_capacity(96);
+    let b = s.as_bytes();
+    let mut i = 0;
+    while i < n {
+        let mut j = 0;
+        while j < b.len() {
+            let l = v.len();
+            unsafe {
+                *v.as_mut_ptr().add(l) = b[j];
+                v.set_len(l + 1);
+            }
+            j += 1;
+        }
+        i += 1;
+    }
+    unsafe { String::from_utf8_unchecked(v) }
+}
+
 // ---------------------------------------------------------------------------------------------
 // Symbolic strings of exact length over a symbol table, and small string oracles.
 
